@@ -246,6 +246,7 @@ func (r *nodeBasedBalancer) swapShard(
 	}
 	r.Info("propose to swap the shard", slog.Int64("shard", candidateShard.ShardID), slog.Any("from", fromNode), slog.Any("to", targetNodeID))
 	loadRatios.MoveShardToNode(candidateShard, fromNodeID, targetNodeID)
+	loadRatios.ReplaceInShardEnsembles(candidateShard.Namespace, candidateShard.ShardID, fromNodeID, *targetNode)
 	loadRatios.ReCalculateRatios()
 	return true, nil
 }
